@@ -97,6 +97,8 @@ theorem respond_ops (s : Store) (hs : s.corrupt = []) (lt : LT) (p : PeerTracker
     simp only [LT.visit, hc', Bool.false_eq_true, if_false] at htx
     simp only [finishQuery, finishWithError, LT.visit, hc', Bool.false_eq_true, if_false, htx, specStatus,
       List.nil_append, List.flatten_append, List.flatten_cons, List.flatten_nil, List.append_nil]
+    -- the status table generated from executeQuery: ErrFirstBlockLoad => RequestFailedContentNotFound
+    rfl
 
 /-! ### `refines` -/
 
